@@ -201,7 +201,7 @@ pub fn ast(e: &IdedExpr) -> J {
         Expr::Ident(n) => json!({"k": "id", "name": n, "ncp": cps(n)}),
         Expr::Select(s) => json!({"k": "sel", "e": ast(&s.operand), "field": s.field, "fcp": cps(&s.field), "test": s.test}),
         Expr::Call(c) => json!({
-            "k": "call", "fn": c.func_name,
+            "k": "call", "fn": c.func_name, "fcp": cps(&c.func_name),
             "tgt": match &c.target { None => json!({"k": "none"}), Some(t) => ast(t) },
             "args": c.args.iter().map(ast).collect::<Vec<_>>()}),
         Expr::List(l) => json!({"k": "list", "e": l.elements.iter().map(ast).collect::<Vec<_>>()}),
@@ -210,7 +210,7 @@ pub fn ast(e: &IdedExpr) -> J {
             EntryExpr::StructField(sf) => json!([{"k": "field", "name": sf.field}, ast(&sf.value)]),
         }).collect::<Vec<_>>()}),
         Expr::Comprehension(c) => json!({
-            "k": "comp", "range": ast(&c.iter_range), "var": c.iter_var, "accu": c.accu_var,
+            "k": "comp", "range": ast(&c.iter_range), "var": c.iter_var, "accu": c.accu_var, "varcp": cps(&c.iter_var), "accucp": cps(&c.accu_var),
             "init": ast(&c.accu_init), "cond": ast(&c.loop_cond), "step": ast(&c.loop_step), "res": ast(&c.result)}),
         Expr::Struct(s) => json!({"k": "struct", "name": s.type_name, "e": s.entries.iter().map(|en| match &en.expr {
             EntryExpr::MapEntry(me) => json!([ast(&me.key), ast(&me.value)]),
